@@ -272,6 +272,13 @@ def check(ctx):
     c08.check(sub)
     ctx.obligations.extend(o for o in sub.obligations if o.rule.split(".", 1)[1].split(".")[0] in ("xor", "agree"))
 
+    # "with the same key file": every (sub)configuration resolves its key file by looking it up through its ancestors at the
+    # time of use (C03.3) -- a key file pinned on first use makes a moved / re-parented sub-configuration unloadable
+    from . import c03
+    sub = type(ctx)(ctx.pid, ctx.an, ctx.tier)
+    c03.check(sub)
+    ctx.obligations.extend(o for o in sub.obligations if o.rule.split(".", 1)[1].split(".")[0] == "keyfile")
+
     # ---------------------------------------------------------------- C02.4 to_tree contents
     g = an.cfg(to_tree)
     reach = reachable_from_entry(an, to_tree)
@@ -296,57 +303,53 @@ def check(ctx):
             return ft.class_spec(e.args[1], ft.env_in.get(t) or {}) or []
         return []
 
-    for st in stores:
-        # instance methods
-        def cut_not_im(a, b, lbl):
-            return not (a.kind == "test" and lbl is False and "InstanceMethodFieldMixin" in spec_of(a))
-        tests_im = [t for t in g.nodes if t.kind == "test" and "InstanceMethodFieldMixin" in spec_of(t)]
-        p = g.path(g.entry, lambda n: n is st, may_raise=oracle, edge_filter=cut_not_im) if tests_im else [g.entry, st]
-        ctx.ob("tree.no-instance-methods", to_tree, st.ast, p is None,
-               "the tree store is reachable only for fields that are not instance methods" if p is None else
-               "an instance-method field can reach the tree store", node=st)
-        # keys absent from _data only as requested virtual fields
-        absent_edges = []
-        for t in g.nodes:
-            if t.kind == "test" and isinstance(t.ast, ast.Compare) and len(t.ast.ops) == 1 and \
-                    isinstance(t.ast.ops[0], (ast.In, ast.NotIn)) and isinstance(t.ast.comparators[0], ast.Attribute) \
-                    and t.ast.comparators[0].attr == "_data":
-                absent_edges.append((t, isinstance(t.ast.ops[0], ast.NotIn)))
-        if not absent_edges:
-            ctx.ob("tree.virtual-on-request", to_tree, st.ast, False,
-                   "to_tree no longer tests whether the key holds a value: unset and virtual fields are emitted unconditionally", node=st)
-            continue
+    # which kinds of field reach a tree store, decided as a table: to_tree specialised for (kind of field, key present in
+    # _data, virtual output requested)
+    from engine.specialize import Spec
+    KIND_CLS = {"plain": "StringField", "virtual": "VirtualField", "method": "InstanceMethodField", "schema": "Schema"}
 
-        def is_virtual_establishing(t):
-            if "VirtualFieldMixin" in spec_of(t):
-                return "isinstance"
-            if isinstance(t.ast, ast.Name):
-                for kind, payload in value_sources(to_tree, t.ast, t):
-                    if kind == "expr" and any(isinstance(x, ast.Name) and x.id == "VirtualFieldMixin" for x in ast.walk(payload)):
-                        return "name"
+    def tree_decider(kind, present, want_virtual):
+        kc = model.cls(KIND_CLS[kind])
+
+        def is_field_var(e, node):
+            return isinstance(e, ast.Name) and any(k == "iter" for k, _ in value_sources(to_tree, e, node))
+
+        def decide(e, node):
+            if isinstance(e, ast.Call) and isinstance(e.func, ast.Name) and e.func.id == "isinstance" and len(e.args) == 2 and is_field_var(e.args[0], node):
+                spec = ft.class_spec(e.args[1], {}) or []
+                if spec and all(c in model.classes for c in spec):
+                    return any(kc.is_subclass_of(model.classes[c]) for c in spec)
+            if isinstance(e, ast.Compare) and len(e.ops) == 1 and isinstance(e.ops[0], (ast.In, ast.NotIn)) \
+                    and isinstance(e.comparators[0], ast.Attribute) and e.comparators[0].attr == "_data":
+                return present if isinstance(e.ops[0], ast.In) else (not present)
+            if isinstance(e, ast.Name) and e.id == "virtual" and all(k == "param" for k, _ in value_sources(to_tree, e, node)):
+                return want_virtual
             return None
-
-        def mentions_virtual_param(t):
-            if isinstance(t.ast, ast.Name) and t.ast.id == "virtual":
-                return True
-            if isinstance(t.ast, ast.Name):
-                for kind, payload in value_sources(to_tree, t.ast, t):
-                    if kind == "expr" and any(isinstance(x, ast.Name) and x.id == "virtual" for x in ast.walk(payload)):
-                        return True
-            return False
-
-        for sel, what in ((lambda t: is_virtual_establishing(t) is not None, "the field is virtual"),
-                          (mentions_virtual_param, "virtual output was requested")):
-            def cut(a, b, lbl, sel=sel):
-                return not (a.kind == "test" and lbl is True and sel(a))
-            bad = None
-            for t, lbl in absent_edges:
-                for s, l2 in t.succ:
-                    if l2 is lbl:
-                        bad = bad or g.path(s, lambda n: n is st, may_raise=oracle, stop=lambda n: n in loop_heads, edge_filter=cut)
-            ctx.ob("tree.virtual-on-request", to_tree, "key absent from _data reaches the store only when %s" % what, bad is None,
-                   "a key without a stored value is emitted only when %s" % what if bad is None else
-                   "a key without a stored value can be emitted although not (%s): %s" % (what, pth(bad)), node=st)
+        return decide
+    expected = {}
+    for kind in KIND_CLS:
+        for present in (True, False):
+            for wv in (True, False):
+                if kind == "method":
+                    want = False
+                elif present:
+                    want = True
+                else:
+                    want = (kind == "virtual" and wv)
+                expected[(kind, present, wv)] = want
+    for (kind, present, wv), want in sorted(expected.items()):
+        if kind in ("virtual", "method") and present:
+            continue        # virtual / method fields never have an entry in _data
+        sp = Spec(an, to_tree, tree_decider(kind, present, wv))
+        got = any(st in sp.normal for st in stores)
+        what = "a %s field, key %s _data, virtual output %s" % (kind, "in" if present else "not in", "requested" if wv else "not requested")
+        rule = "tree.no-instance-methods" if kind == "method" else "tree.virtual-on-request"
+        ctx.ob(rule, to_tree, what, got == want,
+               ("emitted" if want else "left out") if got == want else
+               ("%s is emitted%s" % (what, ": an instance-method field can reach the tree store" if kind == "method" else
+                                    ": a key without a stored value can be emitted although it is not a requested virtual field") if got else
+                "%s is left out of the tree" % what))
+    for st in stores:
         # never the raw in-memory value
         val = st.ast.value
         raw = []
